@@ -251,7 +251,17 @@ func (c *Conn) Recv(timeout time.Duration) (Msg, error) {
 	}
 	m, err := ReadMsg(c.C, ml)
 	if err == nil && c.T != nil && !c.Quiet && m.ID != MsgKeepAlive {
-		c.T.Emit(Ev{"ev": "wire", "conn": c.Name, "dir": "rx", "kind": m.Name(), "index": m.Index, "begin": m.Begin, "length": m.Length, "datalen": len(m.Data)})
+		e := Ev{"ev": "wire", "conn": c.Name, "dir": "rx", "kind": m.Name(), "index": m.Index, "begin": m.Begin, "length": m.Length, "datalen": len(m.Data)}
+		if m.ID == MsgBitfield {
+			bits := []int{}
+			for i := 0; i < len(m.Data)*8 && i < 4096; i++ {
+				if m.Data[i/8]&(1<<(7-uint(i%8))) != 0 {
+					bits = append(bits, i)
+				}
+			}
+			e["bits"] = bits
+		}
+		c.T.Emit(e)
 	}
 	return m, err
 }
